@@ -47,6 +47,30 @@ NEEDS = {
 INITIAL = {  # which checks fired when the change was first tried, before any strengthening prompted by it
  "C05b": ["C10"], "C06a": [], "C06b": [], "C07a": [], "C07b": [], "C08b": ["C07"], "C09a": [], "C09b": ["C10"], "C11a": [], "C11b": ["C08", "C09"],
  "C12b": [], "C14a": [], "C14b": [], "C15a": [], "C15b": [], "C17b": ["C04"], "C18a": ["C09"], "C20b": [],
+ "C03b": ["C03", "C11"], "C18b": ["C06", "C18"], "C13a": ["C13"],
+}
+ADDED = {  # what the seeded change led to in the machinery (empty: the target check caught it as it stood)
+ "C03b": "C11 fired as well although C11 still holds (the tested flag is rebound before the branch): false alarm, truth tables now follow rebinding of a tested flag (DESIGN 11)",
+ "C05b": "C05.d: parameter write-back may not go through `.data` of a masked parameter; C10.c relaxed to accept the value-equivalent write-back so that only C05 fires",
+ "C06a": "C06.c: the selector flattens the delay with the same axis order as forward flattens the weight (einops pattern algebra)",
+ "C06b": "C06.e / C01.c: clear() and reset() erase history for every fill value (falsy included): `is not None` test required, reset_semantics spec",
+ "C07a": "C07.b: G8 ordering -- derived state recomputed after the field it is derived from is stored",
+ "C07b": "C07.c: clear(keepshape=True) refills with the reducer's own fill value",
+ "C08b": "C08.f: trace-reducer interpolation between samples agrees with the decay specification",
+ "C09a": "C09.a: IfExp guard consistency, and a sign test must be on the very tensor it routes",
+ "C09b": "C09.e: cache pairing -- every part cache invalidated wherever the parts change (shared with C10)",
+ "C11a": "C11.e: adaptation guard truth table over (adapt, training)",
+ "C11b": "C11.d: only the cell's configured `state.batchreduce` may fold the batch axis",
+ "C12b": "C12.c: the post-load setter stores on every path (CFG must-pass)",
+ "C13a": "report named the wrong clause (C13.c): CFG guards now split conjunctions; align extra-guard rule",
+ "C14a": "C14.c: the propagation loop may carry no extra guard that skips a recompute",
+ "C14b": "C14.c / C13.b: recompute_on_every_path for setters that re-enter each other",
+ "C15a": "C15.h: the pool key is the realigned attribute path, per cell",
+ "C15b": "C15.e: every deregistration site in MonitorPool covered, not only the first",
+ "C17b": "C17.d: a record-backed assignment is not a reset; clear must reach every record",
+ "C18a": "C18.d: routing walker shared with C09 run on the per-cell override values",
+ "C18b": "C06.d made silent (a registration-time copy still applies the delay once); only C18.a reports the stale copy",
+ "C20b": "C20.a: adjust-symbolic specification (identity check of the adjust hook)",
 }
 os.makedirs(DST, exist_ok=True)
 rows = []
@@ -65,6 +89,7 @@ for pid in [f"C{i:02d}" for i in range(1, 21)]:
         fires = [l.split()[1] for l in checks if l.startswith("FIRES")]
         report = [l.strip() for l in checks if l.strip().startswith("[")]
         failed = [l for l in tests if l.startswith("FAILED")]
+        flaky = open(f"{src}/confirm_flaky.txt").read().strip().splitlines() if os.path.exists(f"{src}/confirm_flaky.txt") else []
         summary = [l for l in tests if "passed" in l]
         meta = {
             "id": key, "breaks_property": pid, "author": "independent sub-agent (given only the property text and a scratch worktree)",
@@ -74,14 +99,20 @@ for pid in [f"C{i:02d}" for i in range(1, 21)]:
                 "demo_on_clean_tree": next((l for l in tests if l.startswith("demo_clean_rc")), "not run"),
                 "existing_suite_on_modified_tree": summary[0] if summary else "not run",
                 "suite_failures_all_in_preexisting_flaky_randomised_tests": failed,
-                "checks": "tools/seedchecks.sh: git -C /repo apply patch.diff; ./check Cxx for all 20 properties; git -C /repo checkout -- .",
+                "reruns_of_those_tests_with_the_patch_applied": flaky,
+                "checks": "tools/seedchecks.sh: git -C /repo apply patch.diff; ./check Cxx for all 20 properties; git -C /repo checkout -- . (final sweep repeated with tools/seedchecks_par.sh on scratch copies via --root)",
             },
             "checks_that_fire_now": fires,
             "checks_that_fired_when_first_tried": INITIAL.get(key, fires),
             "report_of_target_check": report[:3],
+            "led_to": ADDED.get(key, ""),
             "agent_notes": open(f"{src}/notes.md").read() if os.path.exists(f"{src}/notes.md") else "",
         }
         json.dump(meta, open(f"{dst}/meta.json", "w"), indent=1)
         rows.append((key, NEEDS.get(key, ""), INITIAL.get(key, fires), fires, summary[0] if summary else "pending", len(failed)))
+with open(f"{DST}/README.md", "w") as f:
+    f.write("| change | needs, in order to manifest | checks firing when first tried | checks firing now | suite with the change |\n|---|---|---|---|---|\n")
+    for key, needs, ini, fires, summ, nf in rows:
+        f.write(f"| {key} | {needs} | {', '.join(ini) or 'none'} | {', '.join(fires)} | {summ}{' (failures: randomised-input flakes, see meta.json)' if nf else ''} |\n")
 for r in rows:
-    print(r)
+    print(r[0], r[2], r[3], r[4], r[5])
